@@ -26,6 +26,7 @@ namespace dops
 namespace sim
 {
     const char* const harness_name = "dispatch";
+    const bool caller_threads_enabled = true;
 #define X(n) #n,
     const char* const op_names[] = {DISPATCH_OPS(X)};
 #undef X
@@ -383,7 +384,7 @@ namespace
             default: break;
             }
         }
-        void run_all() { for (const Step& st : plan.steps) step(st); }
+        void run_all() { for (const Step& st : plan.steps) as_caller(run, st, [&] { step(st); }); }
     };
 
     // ---- static_dispatcher ---------------------------------------------------------------------------------------------
@@ -458,7 +459,7 @@ namespace
             }
             run.dig(static_cast<uint64_t>(c.handler));
         }
-        void run_all() { for (const Step& st : plan.steps) step(st); }
+        void run_all() { for (const Step& st : plan.steps) as_caller(run, st, [&] { step(st); }); }
     };
 
     // ---- static_dispatcher over two different hierarchies (base_rhs and rhs_type_list given explicitly) -----------------------
@@ -532,7 +533,7 @@ namespace
             }
             run.dig(static_cast<uint64_t>(c.handler));
         }
-        void run_all() { for (const Step& st : plan.steps) step(st); }
+        void run_all() { for (const Step& st : plan.steps) as_caller(run, st, [&] { step(st); }); }
     };
 
     // ---- acyclic visitors -------------------------------------------------------------------------------------------------
@@ -619,7 +620,7 @@ namespace
             }
             run.dig(static_cast<uint64_t>(ret + 1000));
         }
-        void run_all() { for (const Step& st : plan.steps) step(st); }
+        void run_all() { for (const Step& st : plan.steps) as_caller(run, st, [&] { step(st); }); }
     };
 
     template <class HT>
@@ -673,7 +674,7 @@ namespace
             }
             run.dig(static_cast<uint64_t>(ret + 1000));
         }
-        void run_all() { for (const Step& st : plan.steps) step(st); }
+        void run_all() { for (const Step& st : plan.steps) as_caller(run, st, [&] { step(st); }); }
     };
 
     template <bool CONST>
@@ -709,7 +710,7 @@ namespace
             ++run.changing;
             run.dig(static_cast<uint64_t>(ret));
         }
-        void run_all() { for (const Step& st : plan.steps) step(st); }
+        void run_all() { for (const Step& st : plan.steps) as_caller(run, st, [&] { step(st); }); }
     };
 
     void gen(Plan& plan, Rng& cfg, Rng& pr, int)
